@@ -160,7 +160,7 @@ pub fn gen(out: &mut Out, _sub: &str) {
     let q = out.quick();
     // ---- 1-byte operands: gamma enumerated completely by the specification ----------------------
     for op in INT_BIN_OPS {
-        let n = if RICH.contains(&op) { out.size(900, 9000) } else { out.size(110, 1100) };
+        let n = if RICH.contains(&op) { out.size(650, 9000) } else { out.size(90, 1100) };
         bin_events(out, &mut rng, op, 1, n, 40000);
     }
     for op in FLOAT_BIN {
@@ -169,7 +169,7 @@ pub fn gen(out: &mut Out, _sub: &str) {
     }
     // unary / casts / subpiece on 1- and 2-byte intervals (complete enumeration up to 65536 members)
     for w in [1u64, 2] {
-        let n = out.size(if w == 1 { 220 } else { 50 }, if w == 1 { 2200 } else { 400 });
+        let n = out.size(if w == 1 { 200 } else { 35 }, if w == 1 { 2200 } else { 400 });
         for _ in 0..n {
             let mut x = rand_raw(&mut rng, w, HINT_PCT);
             if w == 2 && count(&x) > 6000 && rng.chance(if q { 9 } else { 5 }, 10) { x = rand_raw_sized(&mut rng, w, Size::Medium, HINT_PCT); }
@@ -203,7 +203,7 @@ pub fn gen(out: &mut Out, _sub: &str) {
     for w in [2u64, 4, 8] {
         for op in INT_BIN_OPS {
             if op.starts_with("Bool") { continue; }
-            let n = if RICH.contains(&op) { out.size(60, 500) } else { out.size(10, 80) };
+            let n = if RICH.contains(&op) { out.size(45, 500) } else { out.size(10, 80) };
             bin_events(out, &mut rng, op, w, n, u128::MAX);
         }
         // Piece with a 1-byte upper part and a wide lower part
